@@ -6,7 +6,7 @@ import time
 
 import numpy as np
 
-from ..harness import T, sig_of, snapshot, objarr
+from ..harness import T, sig_of, snapshot, objarr, gradof, set_grad
 from ..opcat_tensor import ssum
 from ..symnum import engine as E
 from ..symnum import array as ar
@@ -86,7 +86,7 @@ class DropoutCase:
         for x, y, g, tag, tr, k in recs:
             if not tr:
                 out.pair("eval is the identity: " + tag, y.data, x.data)
-                out.pair("eval backward is the identity: " + tag, x._grad, g)
+                out.pair("eval backward is the identity: " + tag, gradof(x), g)
             else:
                 u = draw(env, k, shape)
                 exp = objarr(shape)
@@ -97,7 +97,7 @@ class DropoutCase:
                     exp[idx] = x.data[idx] * scale if keep else x.data[idx] * 0
                     gexp[idx] = g[idx] * scale if keep else g[idx] * 0
                 out.pair("x_i*[u_i>p]/(1-p): " + tag, y.data, exp if env.sym else np.array(exp, dtype=np.float64))
-                out.pair("backward through the same mask: " + tag, x._grad, gexp if env.sym else np.array(gexp, dtype=np.float64))
+                out.pair("backward through the same mask: " + tag, gradof(x), gexp if env.sym else np.array(gexp, dtype=np.float64))
         return out
 
 
